@@ -50,6 +50,7 @@ type c19Env struct {
 	NodeBindPolicy                                 string // node label cpu-bind-policy
 	NodeNUMAPolicy                                 string // node label numa-topology-policy
 	KubeletNUMAPolicy                              string // policy reported through the NRT
+	KubeletFullPCPUs                               bool   // kubelet cpu manager policy static + full-pcpus-only, reported through the NRT
 	NodeStrategy                                   string // node label numa-allocate-strategy
 	DefaultBind                                    string // plugin arg
 	NUMAScoring                                    string // plugin arg
@@ -103,6 +104,7 @@ func c19GenEnv(t *rapid.T) *c19Env {
 	if e.NodeNUMAPolicy == "" {
 		e.KubeletNUMAPolicy = rapid.SampledFrom([]string{"", "", "", string(extension.NUMATopologyPolicyBestEffort), string(extension.NUMATopologyPolicySingleNUMANode)}).Draw(t, "kubeletNUMAPolicy")
 	}
+	e.KubeletFullPCPUs = e.NodeBindPolicy == "" && rapid.IntRange(0, 5).Draw(t, "kubeletFullPCPUs") == 0
 	e.NodeStrategy = rapid.SampledFrom([]string{"", "", string(schedulingconfig.NUMAMostAllocated), string(schedulingconfig.NUMALeastAllocated)}).Draw(t, "nodeStrategy")
 	e.DefaultBind = rapid.SampledFrom([]string{schedulingconfig.CPUBindPolicyFullPCPUs, schedulingconfig.CPUBindPolicyFullPCPUs, schedulingconfig.CPUBindPolicySpreadByPCPUs}).Draw(t, "defaultBind")
 	e.NUMAScoring = rapid.SampledFrom([]string{string(schedulingconfig.LeastAllocated), string(schedulingconfig.MostAllocated)}).Draw(t, "numaScoring")
@@ -129,8 +131,8 @@ func c19GenEnv(t *rapid.T) *c19Env {
 }
 
 func (e *c19Env) String() string {
-	return fmt.Sprintf("topo=%dx%dx%dx%d maxRef=%d reserved=%q memPerNode=%d nodeBind=%q nodeNUMA=%q kubeletNUMA=%q strategy=%q defaultBind=%q numaScoring=%q",
-		e.Sockets, e.NodesPerSocket, e.CoresPerNode, e.Threads, e.MaxRef, e.Reserved.String(), e.MemPerNode, e.NodeBindPolicy, e.NodeNUMAPolicy, e.KubeletNUMAPolicy, e.NodeStrategy, e.DefaultBind, e.NUMAScoring)
+	return fmt.Sprintf("topo=%dx%dx%dx%d maxRef=%d reserved=%q memPerNode=%d nodeBind(now)=%q kubeletFullPCPUs(now)=%v nodeNUMA=%q kubeletNUMA=%q strategy=%q defaultBind=%q numaScoring=%q",
+		e.Sockets, e.NodesPerSocket, e.CoresPerNode, e.Threads, e.MaxRef, e.Reserved.String(), e.MemPerNode, e.NodeBindPolicy, e.KubeletFullPCPUs, e.NodeNUMAPolicy, e.KubeletNUMAPolicy, e.NodeStrategy, e.DefaultBind, e.NUMAScoring)
 }
 
 // what the NodeResourceTopology informer delivers for the node (identical for the live and the fresh scheduler)
@@ -140,6 +142,11 @@ func (e *c19Env) deliverTopology(tom TopologyOptionsManager) {
 		o.MaxRefCount = e.MaxRef
 		o.ReservedCPUs = e.Reserved
 		o.NUMATopologyPolicy = extension.NUMATopologyPolicy(e.KubeletNUMAPolicy)
+		o.Policy = nil
+		if e.KubeletFullPCPUs {
+			o.Policy = &extension.KubeletCPUManagerPolicy{Policy: extension.KubeletCPUManagerPolicyStatic,
+				Options: map[string]string{extension.KubeletCPUManagerPolicyFullPCPUsOnlyOption: "true"}}
+		}
 		o.NUMANodeResources = nil
 		for i := 0; i < e.topo.NumNodes; i++ {
 			o.NUMANodeResources = append(o.NUMANodeResources, NUMANodeResource{Node: i, Resources: corev1.ResourceList{
@@ -537,6 +544,21 @@ func c19ViaAPI(t *rapid.T, o c19Obj) c19Obj {
 	return c19Obj{Pod: out}
 }
 
+// c19Unbound is the object as the API server held it between the pre-bind patch (annotations written) and the bind
+// (spec.nodeName / status.nodeName+phase written): annotated, not assigned yet.
+func c19Unbound(o c19Obj) c19Obj {
+	n := o.copy()
+	if n.Resv != nil {
+		n.Resv.Status.NodeName = ""
+		n.Resv.Status.Phase = schedulingv1alpha1.ReservationPending
+		n.Resv.Status.Allocatable = nil
+	} else {
+		n.Pod.Spec.NodeName = ""
+		n.Pod.Status.Phase = ""
+	}
+	return n
+}
+
 // c19Handlers are the two registrations of registerPodEventHandler: pods, and reservations mapped to reserve pods.
 type c19Handlers struct {
 	pod  cache.ResourceEventHandler
@@ -567,7 +589,9 @@ func (h c19Handlers) delete(o c19Obj, tombstone bool) {
 // ---------------------------------------------------------------- replay into a fresh scheduler
 
 type c19Event struct {
-	Kind string // add | dup-add | update | topology
+	// add | dup-add | update | topology | add-unbound (the informer first saw the object annotated but not bound)
+	// | bind-update (the update old=annotated unbound, new=bound that follows an add-unbound: same allocation)
+	Kind string
 	UID  types.UID
 }
 
@@ -584,6 +608,10 @@ func c19Replay(e *c19Env, objs map[types.UID]c19Obj, events []c19Event) *resourc
 			sawTopology = true
 		case "add", "dup-add":
 			h.add(objs[ev.UID])
+		case "add-unbound":
+			h.add(c19Unbound(objs[ev.UID]))
+		case "bind-update":
+			h.update(c19Unbound(objs[ev.UID]), objs[ev.UID])
 		case "update": // same allocation, something else changed
 			o := objs[ev.UID]
 			n := o.copy()
@@ -625,13 +653,37 @@ func c19GenEvents(t *rapid.T, uids []types.UID, topologyFirst bool) ([]c19Event,
 		pos := rapid.IntRange(first+1, len(evs)).Draw(t, "extraPos")
 		evs = append(evs[:pos], append([]c19Event{{kind, u}}, evs[pos:]...)...)
 	}
+	// some objects are first seen between their pre-bind patch and their bind: Add(annotated, unbound), then the update
+	// to the bound object, which carries the same allocation, before anything else about that object
+	early := 0
+	for _, u := range uids {
+		if rapid.IntRange(0, 3).Draw(t, "seenBeforeBind") != 0 {
+			continue
+		}
+		first, nextOfU := -1, len(evs)
+		for j, ev := range evs {
+			if ev.UID != u {
+				continue
+			}
+			if first < 0 {
+				first = j
+			} else {
+				nextOfU = j
+				break
+			}
+		}
+		evs[first].Kind = "add-unbound"
+		pos := rapid.IntRange(first+1, nextOfU).Draw(t, "bindUpdatePos")
+		evs = append(evs[:pos], append([]c19Event{{"bind-update", u}}, evs[pos:]...)...)
+		early++
+	}
 	if topologyFirst {
 		evs = append([]c19Event{{Kind: "topology"}}, evs...)
 	} else {
 		pos := rapid.IntRange(1, len(evs)).Draw(t, "topologyPos")
 		evs = append(evs[:pos], append([]c19Event{{Kind: "topology"}}, evs[pos:]...)...)
 	}
-	return evs, extras
+	return evs, extras + early*1000
 }
 
 func c19Persisted(m map[types.UID]c19Obj) string {
@@ -690,7 +742,7 @@ func TestVerifC19NUMAReplay(t *testing.T) {
 		dead := false
 		sawNUMA, sawCPU, sawShare, sawDup, sawTerminated, sawPodFinished, sawExclMismatchShape, sawSelfEvent, sawLate, sawResv := false, false, false, false, false, false, false, false, false, false
 		maxLive, checks := 0, 0
-		sawDeleted := false
+		sawDeleted, sawEarly, sawPolicyChange, sawPolicyChangeInFlight := false, false, false, false
 
 		bound := func() []types.UID {
 			var out []types.UID
@@ -715,6 +767,10 @@ func TestVerifC19NUMAReplay(t *testing.T) {
 			uids := bound()
 			topologyFirst := !lateTopologyCase || len(uids) == 0 || rapid.Bool().Draw(t, "topologyBeforePods")
 			evs, extras := c19GenEvents(t, uids, topologyFirst)
+			if extras >= 1000 {
+				sawEarly = true
+				extras %= 1000
+			}
 			fresh := c19Replay(e, persisted, evs)
 			if !topologyFirst {
 				sawLate = true
@@ -831,6 +887,29 @@ func TestVerifC19NUMAReplay(t *testing.T) {
 			}
 		}
 
+		// The node's cpu bind policy changes: its label is edited, or the kubelet cpu manager policy reported in the
+		// NodeResourceTopology changes (delivered to the live scheduler by the NRT handler). A restarted scheduler is
+		// given the current node / NRT.
+		changePolicy := func(t *rapid.T) string {
+			if rapid.Bool().Draw(t, "viaKubeletPolicy") {
+				e.KubeletFullPCPUs = !e.KubeletFullPCPUs
+				e.deliverTopology(tom)
+				return fmt.Sprintf("NRT: kubelet static/full-pcpus-only=%v", e.KubeletFullPCPUs)
+			}
+			var others []string
+			for _, v := range []string{"", string(extension.NodeCPUBindPolicyFullPCPUsOnly), string(extension.NodeCPUBindPolicySpreadByPCPUs)} {
+				if v != e.NodeBindPolicy {
+					others = append(others, v)
+				}
+			}
+			e.NodeBindPolicy = rapid.SampledFrom(others).Draw(t, "newNodeBindPolicy")
+			if e.NodeBindPolicy == "" {
+				delete(e.node.Labels, extension.LabelNodeCPUBindPolicy)
+			} else {
+				e.node.Labels[extension.LabelNodeCPUBindPolicy] = e.NodeBindPolicy
+			}
+			return fmt.Sprintf("node label cpu-bind-policy=%q", e.NodeBindPolicy)
+		}
 		schedule := func(t *rapid.T) {
 			if dead {
 				return
@@ -870,6 +949,11 @@ func TestVerifC19NUMAReplay(t *testing.T) {
 				plg.Unreserve(ctx, cs, pod, c19Node)
 				hist = append(hist, fmt.Sprintf("schedule %s -> reserved [%s], bind failed, unreserved", what, c19AllocStr(state.allocation)))
 				return
+			}
+			// binding is asynchronous: the node's policy may change between Reserve and PreBind
+			if rapid.IntRange(0, 5).Draw(t, "policyChangesBeforePreBind") == 0 {
+				what += " [in flight: " + changePolicy(t) + "]"
+				sawPolicyChange, sawPolicyChangeInFlight = true, true
 			}
 			var obj, before c19Obj
 			if asResv {
@@ -914,8 +998,10 @@ func TestVerifC19NUMAReplay(t *testing.T) {
 			} else {
 				model[pod.UID] = PodAllocation{UID: pod.UID}
 			}
-			if selfEvent { // the allocating scheduler's own informer reports the bound object
-				live.update(before, obj)
+			if selfEvent { // the allocating scheduler's own informer reports the pre-bind patch, then the bind
+				mid := c19Unbound(obj)
+				live.update(before, mid)
+				live.update(mid, obj)
 				sawSelfEvent = true
 			}
 			hist = append(hist, fmt.Sprintf("schedule %s -> bound [%s] as %s selfEvent=%v", what, c19AllocStr(state.allocation), obj, selfEvent))
@@ -924,6 +1010,13 @@ func TestVerifC19NUMAReplay(t *testing.T) {
 			"schedule":  schedule, // three names: scheduling is three times as likely as each other action
 			"schedule2": schedule,
 			"schedule3": schedule,
+			"changeNodePolicy": func(t *rapid.T) {
+				if dead {
+					return
+				}
+				hist = append(hist, "change "+changePolicy(t))
+				sawPolicyChange = true
+			},
 			"delete": func(t *rapid.T) {
 				if dead {
 					return
@@ -1047,6 +1140,9 @@ func TestVerifC19NUMAReplay(t *testing.T) {
 		c.ClassIf(sawTerminated, "finished-reservation-persisted")
 		c.ClassIf(sawPodFinished, "pod-finished(delivered-as-delete)")
 		c.ClassIf(sawDeleted, "object-deleted")
+		c.ClassIf(sawEarly, "replay:add-unbound-then-bind-update")
+		c.ClassIf(sawPolicyChange, "node-cpu-bind-policy-changed")
+		c.ClassIf(sawPolicyChangeInFlight, "node-cpu-bind-policy-changed-between-reserve-and-prebind")
 		c.ClassIf(sawSelfEvent, "live-saw-own-bind-event")
 		c.ClassIf(sawExclMismatchShape, "cpuset-for-non-LSR/LSE-pod(node policy)")
 		c.ClassIf(sawLate, "pod-event-before-topology")
